@@ -5,6 +5,7 @@ import Holpy.C10.ProofsPolySem
 import Holpy.C10.ProofsIntOrdBody
 import Holpy.C10.ProofsIntClosure
 import Holpy.C10.ProofsIntIdem
+import Holpy.C10.ProofsIntInjSem
 /-
 C10 — property theorems about the integer Conv normaliser (`data/integer.py`: `simp_full`,
 `int_norm_conv`, `int_norm_eq`).
@@ -52,18 +53,8 @@ theorem evalE_embI (ρ : Nat → Int) (t : IExp) : evalE ρ (embI t) = evalI ρ 
   | pow b e ih => simp [embI, evalE, evalI, ih]
 
 /-- The normal form has the identical `convert_to_poly` list as the term (polynomial semantics with
-x^n expanded), so two terms with the same normal form have the same polynomial.
-PARTIAL (`int_norm_canonical` is NOT proved): the converse -- same polynomial ⇒ same normal form.
-Done along the nat template: the order (`int_bodyCmp_total`), closure (`int_norm_nf_closed`: the result
-is `0` or a strictly increasing sum of monomials with strictly increasing atomic bases) and
-idempotence (`int_norm_idem`).  Still missing: injectivity normal form -> polynomial (a strictly
-sorted monomial list is determined by its `convert_to_poly` list; `fsB` with exponents), which with
-closure gives `int_norm_canonical` and `int_norm_eq_canonical`.  `simp_full` does not expand powers
-of non-atomic bases ((i + j)^2 stays an atom), so canonicity can only hold on the fragment
-`atomicPowers`, and -- see the example below the theorem -- only for exponents other than 0: both
-the model and the code keep `i ^ 0` (normal form `i ^ 0`, not `1`).  Canonicity is compared against
-the independent evaluator every run. -/
-theorem int_norm_canonical_partial (a b : IExp) :
+x^n expanded), so two terms with the same normal form have the same polynomial. -/
+theorem int_norm_poly_invariant (a b : IExp) :
     toPoly (embI (intNorm a)) = toPoly (embI a) ∧
     (intNorm a = intNorm b → toPoly (embI a) = toPoly (embI b)) := by
   have inv : ∀ t, toPoly (embI (intNorm t)) = toPoly (embI t) := fun t =>
@@ -147,5 +138,45 @@ example : intNorm (.mul (.add (.atom 0 1) (.atom 1 1)) (.atom 0 1))
       = .add (.pow (.atom 0 1) 2) (.mul (.atom 0 1) (.atom 1 1)) ∧
     intNorm (.add (.pow (.atom 0 1) 2) (.mul (.atom 0 1) (.atom 1 1)))
       = .add (.pow (.atom 0 1) 2) (.mul (.atom 0 1) (.atom 1 1)) := by decide
+
+/-- Canonicity of `simp_full` / `int_norm_conv`: two integer terms have the same normal form exactly
+when they have the same value under every valuation of the atoms (i.e. are equal as polynomials) --
+on the fragment `fragI` decided by the driver on the generated inputs: powers only of atoms, no
+exponent `0` (the code keeps `i ^ 0`, see the example above), atoms determined by their rank. -/
+theorem int_norm_canonical (a b : IExp) (h : fragI a b = true) :
+    (simpFull a = simpFull b ↔ ∀ ρ, evalI ρ a = evalI ρ b) ∧
+    (intNorm a = intNorm b ↔ ∀ ρ, evalI ρ a = evalI ρ b) := by
+  simp only [fragI, Bool.and_eq_true] at h
+  obtain ⟨⟨⟨pa, pb⟩, wa⟩, wb⟩ := h
+  have key := fun hv => simpFull_canonical _ pa pb wa wb hv
+  refine ⟨⟨fun e ρ => ?_, key⟩, ⟨fun e ρ => ?_, fun hv => ?_⟩⟩
+  · rw [← simpFull_sound ρ a, ← simpFull_sound ρ b, e]
+  · rw [← intNorm_sound ρ a, ← intNorm_sound ρ b, e]
+  · unfold intNorm; rw [key hv]
+
+/- (i + j)^2-style expansion: (i + j) * (i + j) and i^2 + 2*i*j + j^2 (in another order) -/
+example : fragI (.mul (.add (.atom 0 1) (.atom 1 1)) (.add (.atom 0 1) (.atom 1 1)))
+      (.add (.pow (.atom 1 1) 2) (.add (.mul (.num 2) (.mul (.atom 1 1) (.atom 0 1))) (.pow (.atom 0 1) 2))) = true ∧
+    intNorm (.mul (.add (.atom 0 1) (.atom 1 1)) (.add (.atom 0 1) (.atom 1 1)))
+      = intNorm (.add (.pow (.atom 1 1) 2) (.add (.mul (.num 2) (.mul (.atom 1 1) (.atom 0 1))) (.pow (.atom 0 1) 2))) := by
+  decide
+
+/-- Canonicity of `int_norm_eq` under moving terms across `=`: two equations whose differences
+`lhs - rhs` have the same value under every valuation get the identical normalised equation.
+PARTIAL (`int_norm_eq_canonical` also asks for invariance under an overall sign, `a = b` against
+`-a = -b` or `b = a`): missing is that `norm_mult_polynomials` by `-1` negates every coefficient in
+place, so that the first-coefficient test of `int_norm_eq` picks the same representative for both
+signs; everything else (closure, canonicity of `simp_full`) is available. -/
+theorem int_norm_eq_canonical_partial (a b a' b' : IExp)
+    (h : fragI (.sub a b) (.sub a' b') = true)
+    (hv : ∀ ρ, evalI ρ a - evalI ρ b = evalI ρ a' - evalI ρ b') :
+    intNormEq a b = intNormEq a' b' := by
+  have := (int_norm_canonical (.sub a b) (.sub a' b') h).1.2 (fun ρ => by simpa [evalI] using hv ρ)
+  unfold intNormEq
+  rw [this]
+
+/- i + 2 = j  and  i = j - 2 -/
+example : intNormEq (.add (.atom 0 1) (.num 2)) (.atom 1 1) = intNormEq (.atom 0 1) (.sub (.atom 1 1) (.num 2)) := by
+  decide
 
 end Holpy.C10
